@@ -189,3 +189,28 @@ func hashPoly(p ring.Poly, level int) uint64 {
 	}
 	return h
 }
+
+// mformPoly returns x·2^64 mod q_i of every (reduced) coefficient: the Montgomery form of a plain polynomial, computed
+// with division-based arithmetic. Used to compare a Montgomery-output sampler with a plain-output sampler fed the same bytes.
+func mformPoly(r *ring.Ring, p ring.Poly, level int) ring.Poly {
+	out := r.AtLevel(level).NewPoly()
+	for i, q := range r.ModuliChain()[:level+1] {
+		R := ref.Pow2Mod(64, q)
+		for j := 0; j < N; j++ {
+			out.Coeffs[i][j] = ref.MulMod(p.Coeffs[i][j]%q, R, q)
+		}
+	}
+	return out
+}
+
+// polyCongruent reports whether a ≡ b (mod q_i) on levels 0..level.
+func polyCongruent(r *ring.Ring, a, b ring.Poly, level int) (bool, string) {
+	for i, q := range r.ModuliChain()[:level+1] {
+		for j := 0; j < N; j++ {
+			if a.Coeffs[i][j]%q != b.Coeffs[i][j]%q {
+				return false, fmt.Sprintf("level %d coefficient %d: %d vs %d (mod %d)", i, j, a.Coeffs[i][j]%q, b.Coeffs[i][j]%q, q)
+			}
+		}
+	}
+	return true, ""
+}
